@@ -217,12 +217,11 @@ class Tokenizer(object):
         self.source = source
         self.seek = source.seek
         self.read = source.read
-        self.readline = source.readline
         self.tell = source.tell
         self.lineNumber = 1
 
-# There seems to be a problem with readline in Python 2.4 !!!
     def readline(self):
+        """ Discard the rest of the current line, including pushed-back characters """
         read = self.read
         mybuffer = self._charBuffer
         while 1:
